@@ -23,7 +23,7 @@ import traceback
 
 from simkit import boot, plan as P, rng, findings
 
-MAX_REPORTED = 6
+MAX_REPORTED = int(os.environ.get("VERIF_MAX_REPORTED", "6"))
 SHRINK_BUDGET = 400
 
 
@@ -320,6 +320,8 @@ def run_check(mod):
         unknown.setdefault(key, []).append(v)
     n_viol = sum(len(x) for x in unknown.values())
     lines = []
+    for key in sorted(unknown):
+        print('signature %s x%d' % (key, len(unknown[key])))
     for key in sorted(unknown)[:MAX_REPORTED]:
         v = min(unknown[key], key=lambda x: len(P.canon(x['plan'])))
         small, used = shrink(mod, v['plan'], v['sig'])
